@@ -95,37 +95,43 @@ theorem c19_oldest (size : Nat) (hs : 1 ≤ size) (blank : α) (ops : List (POp 
     rw [hv _ hlt']
     simp [List.head?_append, List.head?_drop, List.getElem?_eq_getElem hlt']
 
-/-- **C19 (recent).** `CopyRecent()` is the frame completed just before the current one
-(capacity ≥ 2, at least one completed frame). -/
-theorem c19_recent (size : Nat) (hs : 2 ≤ size) (blank : α) (ops : List (POp α))
-    (hne : (specAfter ops).done ≠ []) :
-    some (ringAfter size blank ops).recent = (specAfter ops).done.getLast? := by
+/-- **C19 (recent).** `CopyRecent()` is the frame completed just before the current one, and
+nil while no frame has been completed since creation / reset (capacity ≥ 2). -/
+theorem c19_recent (size : Nat) (hs : 2 ≤ size) (blank : α) (ops : List (POp α)) :
+    (ringAfter size blank ops).recent = (specAfter ops).done.getLast? := by
   obtain ⟨g, hr, hsr⟩ := reach size (by omega) blank ops
   obtain ⟨hn, hm, hv⟩ := hsr
-  have hlen : 0 < (specAfter ops).done.length := List.length_pos_iff.mpr hne
   have hsz : (ringAfter size blank ops).size = size := by
     simp [ringAfter, size_foldl_applyP, Ring.new]
   have hsz' : (List.foldl Ring.applyP (Ring.new size blank) ops).size = size := hsz
-  show some (List.foldl Ring.applyP (Ring.new size blank) ops).recent = _
-  rw [recent_eq _ g hr (by rw [hsz']; exact hs) (by rw [hn]; exact hlen)]
-  have hlen' : 0 < (List.foldl Spec.apply Spec.init ops).done.length := hlen
-  have hk : g.n - 1 < (List.foldl Spec.apply Spec.init ops).done.length := by rw [hn]; omega
-  rw [hv _ hk, List.getLast?_eq_getElem?]
-  simp only [specAfter]
-  rw [List.getElem?_eq_getElem (by omega)]
-  simp [hn]
+  show (List.foldl Ring.applyP (Ring.new size blank) ops).recent = _
+  rw [recent_eq _ g hr (by rw [hsz']; exact hs)]
+  by_cases h0 : g.n = 0
+  · have : (List.foldl Spec.apply Spec.init ops).done = [] := List.eq_nil_of_length_eq_zero (by rw [← hn]; exact h0)
+    simp only [h0, if_true, specAfter, this, List.getLast?_nil]
+  · simp only [h0, if_false]
+    have hk : g.n - 1 < (List.foldl Spec.apply Spec.init ops).done.length := by rw [← hn]; omega
+    rw [hv _ hk, List.getLast?_eq_getElem?]
+    simp only [specAfter]
+    rw [List.getElem?_eq_getElem (by omega)]
+    simp [hn]
 
-/-- Capacity 1 corner, stated as what the code does: the single slot is both "current" and
-"recent"; a one-slot buffer cannot retain the frame before the current one. -/
+/-- Capacity 1 corner, stated as what the code does: once a frame has been completed the single
+slot is both "current" and "recent"; a one-slot buffer cannot retain the frame before the current one. -/
 theorem c19_recent_capacity_one (blank : α) (ops : List (POp α)) (cur : α) :
-    ((ringAfter 1 blank ops).write cur).recent = cur := by
-  obtain ⟨g, hr, _⟩ := reach 1 (by omega) blank ops
+    ((ringAfter 1 blank ops).write cur).recent = if (specAfter ops).done = [] then none else some cur := by
+  obtain ⟨g, hr, hsr⟩ := reach 1 (by omega) blank ops
   have hw := inv_write _ g cur hr
   have hsz : ((ringAfter 1 blank ops).write cur).size = 1 := by
     simp [Ring.write, ringAfter, size_foldl_applyP, Ring.new]
-  show ((List.foldl Ring.applyP (Ring.new 1 blank) ops).write cur).recent = cur
+  show ((List.foldl Ring.applyP (Ring.new 1 blank) ops).write cur).recent = _
   rw [recent_size_one _ _ hw hsz]
-  simp [Ghost.write]
+  have hn : (g.write cur).n = (specAfter ops).done.length := by simp [Ghost.write, hsr.1, specAfter]
+  by_cases h0 : (specAfter ops).done = []
+  · simp [h0, hn]
+  · have hne : (specAfter ops).done.length ≠ 0 := fun h => h0 (List.eq_nil_of_length_eq_zero h)
+    have hv : (g.write cur).vals (g.write cur).n = cur := by simp [Ghost.write]
+    rw [if_neg h0, hv, hn, if_neg hne]
 
 /-- **C19 (raw operations).** For *any* order of write / move / mark / reset (also moves over
 unwritten slots) `GetHistory` never hits the slice-bounds panic and returns the ghost window
@@ -163,7 +169,8 @@ example : ((ringAfter 3 0 [.push 10, .push 11, .push 12, .push 13]).write 14).hi
     = some [12, 13, 14] := by decide
 example : (specAfter [.push 10, .push 11, .push 12, .push 13, .mark, .push 14]).history 3 15 = [14, 15] := by
   decide
-example : (ringAfter 3 0 [.push 10, .push 11, .push 12, .push 13]).recent = 13 := by decide
+example : (ringAfter 3 0 [.push 10, .push 11, .push 12, .push 13]).recent = some 13 := by decide
+example : (ringAfter 3 0 ([] : List (POp Nat))).recent = none := by decide
 example : ((ringAfter 3 0 [.push 10, .reset, .push 20]).write 21).history = some [20, 21] := by decide
 
 end TR.C19
